@@ -54,13 +54,20 @@ def monitor(case, o):
     evs = parse_log(o)
     marks = [int(a[0]) for t, ev, a in evs if ev == "mark"]
     if case.get("monitor_only") == "depth":
-        sent = [op["mark"] for op in case["ops"] if op["op"] in ("run", "run_async")]
+        sent = [op["mark"] for op in case["ops"] if op["op"] in ("run", "run_async", "run_exit_wait")]
+        for op in case["ops"]:
+            if op["op"] == "run_exit_wait" and not any(ev == "waitdone" and a[0] == str(op["mark"]) for t, ev, a in evs):
+                out.append(("C10_executed_once: a high-lane control queued while the task was busy was never executed (its ticket never resolved)",
+                            {"queued_by_mark": op["mark"]}))
         if sorted(marks) != sorted(sent):
             out.append(("C10_executed_once: with several hundred controls pending in one lane, not every control was executed exactly once",
                         {"sent": len(sent), "executed": len(marks), "missing": sorted(set(sent) - set(marks))[:5]}))
         unresolved = [k for k, w in enumerate(o["tickets"]) if w[0] is None]
         if unresolved:
             out.append(("C10_last_ticket_implies_all: tickets of queued controls never resolved", {"first_unresolved_op": unresolved[0], "count": len(unresolved)}))
+        if marks != sorted(marks):
+            out.append(("C10_fifo_within_priority: normal-priority run() calls executed out of send order", marks[:8]))
+        return out
     if marks != sorted(marks) or len(set(marks)) != len(marks):
         out.append(("C10_fifo_within_priority: normal-priority run() calls executed out of send order or twice", marks))
     ops = case["ops"]
@@ -147,6 +154,23 @@ class C10(C04):
                        {"at": 10, "op": "stop_with_signal", "sig": "Terminate", "grace": 50, "yield": True})
             ops += [{"at": 20, "op": "run", "mark": k + 1, "yield": False} for k in range(n)]
             ops[-1]["yield"] = True
+            extra.append({"id": 0, "monitor_only": "depth", "script": {"children": [{"self_exit": None, "ignore_all": True}], "spawn_fail": [], "signal_fail": [], "kill_fail": []},
+                          "ops": ops, "waiters": 1, "tail": 1000})
+        # budget: a burst long enough to use up the task's cooperative budget in one poll, followed by high / urgent controls, at the very
+        # instant the command ends by itself -- nothing is lost whichever branch the task's select! takes next
+        for n in list(range(122, 134)) + [255, 256, 257]:
+            for tailops in (["to_wait"], ["to_wait", "to_wait"]):
+                ops = [{"at": 0, "op": "start", "yield": True}]
+                ops += [{"at": 40, "op": "run", "mark": k + 1, "yield": False} for k in range(n)]
+                ops += [{"at": 40, "op": t_, "yield": False} for t_ in tailops]
+                ops[-1]["yield"] = True
+                extra.append({"id": 0, "monitor_only": "depth", "script": {"children": [{"self_exit": 40, "ignore_all": True}], "spawn_fail": [], "signal_fail": [], "kill_fail": []},
+                              "ops": ops, "waiters": 1, "tail": 1000})
+        # ... the same with the high-lane control queued by the last function of the burst, which also makes the command end at that instant
+        for n in list(range(120, 132)) * 2:
+            ops = [{"at": 0, "op": "start", "yield": True}]
+            ops += [{"at": 40, "op": "run", "mark": k + 1, "yield": False} for k in range(n)]
+            ops += [{"at": 40, "op": "run_exit_wait", "mark": n + 1, "yield": False}, {"at": 40, "op": "run", "mark": n + 2, "yield": True}]
             extra.append({"id": 0, "monitor_only": "depth", "script": {"children": [{"self_exit": None, "ignore_all": True}], "spawn_fail": [], "signal_fail": [], "kill_fail": []},
                           "ops": ops, "waiters": 1, "tail": 1000})
         extra += lanes_cases(r, 48 if tier == "quick" and not deep else 480)
